@@ -44,6 +44,8 @@ type DAW struct {
 	AuthzFail   bool `json:",omitempty"`
 	AuthzDBFail bool `json:",omitempty"`
 	AuthzOther  bool `json:",omitempty"` // the authorization named by the request belongs to another account
+	AuthzNotOwn bool `json:",omitempty"` // … it lists challenges and this challenge is not one of them
+	AuthzLists  bool `json:",omitempty"` // … it lists this challenge (the normal case with a real store)
 
 	Payload string   // "" (build) | notjson | errfield | badb64 | emptyobj | bracesobj | notcbor | cborwrongtype | noattobj
 	Format  string   // fmt value written into the object
@@ -406,7 +408,7 @@ func (w *DAW) extract(k *Case, payload []byte, prov *provisioner.ACME) string {
 	}
 	enabled := prov.IsAttestationFormatEnabled(context.Background(), provisioner.ACMEAttestationFormat(att.Format))
 	head := fmt.Sprintf("w=da authz=%s json=%s errf=%s b64=%s empty=%s wf=%s cbor=%s fmt=%s en=%s azdb=%s",
-		c.B(!w.AuthzFail), c.B(jsonOk), c.B(p.Error != ""), c.B(b64err == nil), c.B(empty), c.B(wf), c.B(cborOk), format, c.B(enabled), c.B(!w.AuthzDBFail)) + " azother=" + c.B(w.AuthzOther)
+		c.B(!w.AuthzFail), c.B(jsonOk), c.B(p.Error != ""), c.B(b64err == nil), c.B(empty), c.B(wf), c.B(cborOk), format, c.B(enabled), c.B(!w.AuthzDBFail)) + " azother=" + c.B(w.AuthzOther) + " aznotown=" + c.B(w.AuthzNotOwn)
 	if !cborOk {
 		return head + " fpne=0 facts=none"
 	}
@@ -500,7 +502,7 @@ var daMuts = []string{
 	"x5c-absent", "x5c-notarray", "x5c-empty", "x5c-leafnotbytes", "x5c-leafgarbage", "x5c-restgarbage", "x5c-leafonly", "x5c-wrongca", "x5c-expired", "x5c-rootonly",
 	"roots-other", "roots-none", "sysca-noroots", "sysca-noroots", "sysca-configured", "serial-other", "serial-absent", "serial-malformed", "serial-trailing", "serial-prefix", "key-p384", "key-rsa", "key-ed25519",
 	"fmt-disabled", "fmt-unknown", "fmt-case", "fmt-unknown-enabled", "payload-notjson", "payload-errfield", "payload-badb64", "payload-emptyobj", "payload-bracesobj",
-	"payload-notcbor", "payload-cborwrongtype", "payload-noattobj", "authz-missing", "authz-dbfail", "authz-other-account", "authz-other-account",
+	"payload-notcbor", "payload-cborwrongtype", "payload-noattobj", "authz-missing", "authz-dbfail", "authz-other-account", "authz-other-account", "authz-not-own", "authz-not-own", "authz-lists-own",
 	"nonce-absent", "nonce-other-token", "nonce-keyauth", "nonce-empty", "nonce-trunc", "nonce-long33", "nonce-b64", "udid-only", "serial-only", "ids-none", "ids-swapped-case",
 	"tpm-nover", "tpm-ver1", "tpm-nox5c", "tpm-noroots", "tpm-akcert",
 	"tpm-exact", "tpm-exact", "tpm-exact", "tpm-extra-empty", "tpm-extra-prefix1", "tpm-extra-prefix20", "tpm-extra-prefix31", "tpm-extra-long33",
@@ -596,6 +598,10 @@ func genDA(r *c.Rng, k *Case) {
 		w.AuthzDBFail = true
 	case "authz-other-account":
 		w.AuthzOther = true
+	case "authz-not-own":
+		w.AuthzNotOwn = true
+	case "authz-lists-own":
+		w.AuthzLists = true
 	case "nonce-absent":
 		w.HasNonc, w.Nonce = false, nil
 	case "nonce-other-token":
